@@ -28,8 +28,8 @@ TIERS = {
     "quick": dict(programs=50, calls=200, adj=dict(nodes=3, vals=2, max_edges=3),
                   search=dict(nodes=3, vals=1, max_edges=3, rej="single", nvals=[0]),
                   cont=dict(nk=3, nd=1, vals=1, max_edges=2)),
-    "thorough": dict(programs=1000, calls=500, adj=dict(nodes=3, vals=2, max_edges=4),
-                     search=dict(nodes=3, vals=2, max_edges=3, rej="single", nvals=[0, 1, 2]),
+    "thorough": dict(programs=300, calls=300, adj=dict(nodes=3, vals=2, max_edges=3),
+                     search=dict(nodes=3, vals=1, max_edges=3, rej="single", nvals=[0, 1]),
                      cont=dict(nk=3, nd=1, vals=2, max_edges=3)),
 }
 
